@@ -239,6 +239,12 @@ def trace_text(effects, model, an):
 
 def replay_trace(suite, p, doc, cli, hdr, v, d, make_query):
     """callback: build the state, run setup(), emit the signal with the model's arguments, compare traces"""
+    import copy
+    p = copy.copy(p)
+    doc, cli, rej = D.translate(suite.qmluic, os.path.join(d, 'cli'), [p])      # document holding only this handler
+    if doc is None:
+        return None, {'error': 'single-handler document rejected: %s' % rej}
+    hdr = cxx.Header(cli.header)
     try:
         an, model = _stage3(p, hdr, len(doc.programs), make_query)
     except NotImplementedError as e:
